@@ -5,6 +5,7 @@ import (
 	"flag"
 	"fmt"
 	"os"
+	"sort"
 	"strconv"
 	"strings"
 	"time"
@@ -22,6 +23,7 @@ func main() {
 	findings := flag.String("findings", "/verif/known_findings.txt", "known findings file")
 	facts := flag.String("facts", "", "debug: dump branch facts for the named function")
 	selftest := flag.String("selftest", "/verif/selftest", "directory of self-test patches (thorough tier)")
+	dumpFuncs := flag.Bool("dump-funcs", false, "print the names of all source functions (for core/baseline_funcs.txt)")
 	list := flag.Bool("list", false, "list registered properties")
 	inventory := flag.String("inventory", "", "debug: comma-separated entry points; print the reachable panic-site inventory")
 	stop := flag.String("stop", "", "debug: comma-separated functions not to descend into (with -inventory)")
@@ -40,6 +42,22 @@ func main() {
 	if *list {
 		for _, id := range core.IDs() {
 			fmt.Println(id)
+		}
+		return
+	}
+	if *dumpFuncs {
+		names, err := core.ScanDeclNames(*repo)
+		if err != nil {
+			fmt.Fprintln(os.Stderr, err)
+			os.Exit(2)
+		}
+		var ns []string
+		for n := range names {
+			ns = append(ns, n)
+		}
+		sort.Strings(ns)
+		for _, n := range ns {
+			fmt.Println(n)
 		}
 		return
 	}
@@ -69,6 +87,9 @@ func main() {
 			fmt.Printf("VIOLATION property=%s replay=load-failure\n", *prop)
 		}
 		os.Exit(1)
+	}
+	if len(p.Normalized) > 0 {
+		fmt.Printf("normalised: inlined new unexported helper(s) before analysis: %s\n", strings.Join(p.Normalized, ", "))
 	}
 	if *grep != "" {
 		for _, f := range p.All {
